@@ -344,7 +344,11 @@ func (k *keyCapture) WithGroup(string) slog.Handler      { return k }
 // is asked for and, since fix 248331e, the form the cache key is built from.
 func mkReq(tlsOn bool, method, host, p, q string) *http.Request {
 	u := &url.URL{Path: p, RawQuery: q}
-	if dec, err := url.PathUnescape(p); err == nil {
+	// exactly what net/http hands the handler for this request line: Path decoded, RawPath set only when the spelling
+	// differs from the default encoding of Path (url.setPath)
+	if pu, err := url.ParseRequestURI(p); err == nil && strings.HasPrefix(p, "/") && !strings.ContainsAny(p, "?#") {
+		u.Path, u.RawPath = pu.Path, pu.RawPath
+	} else if dec, err := url.PathUnescape(p); err == nil {
 		u.Path, u.RawPath = dec, p
 	}
 	r := &http.Request{Method: method, Host: host, URL: u, Header: http.Header{}}
